@@ -33,21 +33,23 @@ RULE = ("programs = time-ordered chains [State]? (Gate|MProcess)* [Povm]? of the
         "operands; distinct = distinct (system, pool, chain, operands, tree)")
 ASSUMPTIONS = ["operands are the physical objects of the shared alphabet (mc/alphabet.py), is_physicality_required=True, "
                "mode_sampling=False (the sampling mode of MProcess is random and not explored)",
-               "reference probabilities inside the library's documented truncation band (1e-12, 1e-6) around eps_zero=1e-8 "
-               "do not occur in the pools (guarded); post-measurement states are compared only for outcomes with "
-               "reference probability > 1e-6",
+               "no verdict on outcomes whose reference probability lies in (1e-12, 1e-7), i.e. within 10x of the library's "
+               "documented truncation threshold eps_zero=1e-8 (they may be set to 0 and the rest renormalised; counted, guarded "
+               "to be < 0.1% of the compared probabilities); post-measurement states are compared only for outcomes with "
+               "reference probability > 1e-7",
                "systems: 1 qubit, 1 qutrit, 2 qubits with the library's normalised Pauli / Gell-Mann bases",
                "for generate_mprocess only what the statement promises is checked (physical, induces the POVM it came "
                "from, Born-consistent on every alphabet state), not the documented back-action formulas"]
-BOUNDS = {"quick": "chains length 2..4 on Q1,Q3,Q2 x pools A,B, length 5 on Q1 pool A; pairs/genmp/to_povm on Q1,Q3,Q2 full alphabets",
-          "thorough": "chains length 2..5 on Q1,Q3,Q2 x pools A,B, length 6 on Q1 pool A; pairs/genmp/to_povm on Q1,Q3,Q2 full alphabets"}
+BOUNDS = {"quick": "chains length 2..4 on Q1,Q3,Q2 x pools A,B, length 5 on Q1,Q3,Q2 pool A; pairs/genmp/to_povm on Q1,Q3,Q2 full alphabets; rare outcomes p=1e-2..1e-5",
+          "thorough": "chains length 2..5 on Q1,Q3,Q2 x pools A,B, length 6 on Q1 pool A; pairs/genmp/to_povm on Q1,Q3,Q2 full alphabets; rare outcomes p=1e-2..1e-5"}
 EXHAUSTIVE = {"quick": True, "thorough": True}
 CASE_TIMEOUT = 900
 
 TOL = 1e-9
 P_ZERO = 1e-12      # reference probabilities below this are "exactly zero" outcomes
-P_BAND = 1e-6       # reference probabilities in (P_ZERO, P_BAND) would be inside the eps_zero truncation band
+P_BAND = 1e-7       # reference probabilities in (P_ZERO, P_BAND) are within 10x of the eps_zero=1e-8 truncation threshold
 DIMS = {"Q1": 2, "Q3": 3, "Q2": 4}
+RARE_EXPONENTS = (2, 3, 4, 5)
 KINDS = {"S": "state", "G": "gate", "M": "mprocess", "P": "povm"}
 
 
@@ -69,9 +71,21 @@ class Ctx:
         self.data = {"state": A.states_ref(d, seed), "gate": A.gates_ref(d, seed),
                      "mprocess": A.instruments_ref(d, seed), "povm": A.povms_ref(d, seed)}
         self._q, self._r = {}, {}
+        # operands with a rare (but far above eps_zero = 1e-8) outcome: a pure state sqrt(1-p)|w0> + sqrt(p)|w1> and the
+        # projective Lueders measurement in the generic orthonormal basis {|w_k>}; outcome 1 has probability p
+        W = R.generic_unitary(d, seed, salt=7)
+        self.extra = {"mprocess": {"rotated_comp": [[np.outer(W[:, k], W[:, k].conj())] for k in range(d)]}, "state": {}}
+        for e in RARE_EXPONENTS:
+            pr = 10.0 ** (-e)
+            psi = np.sqrt(1 - pr) * W[:, 0] + np.sqrt(pr) * W[:, 1]
+            self.extra["state"]["rare_1e-%d" % e] = np.outer(psi, psi.conj())
+        for k, dd in self.extra.items():
+            self.data[k] = dict(self.data[k])
+            self.data[k].update(dd)
 
     def names(self, kind):
-        return list(self.data[kind])
+        """the shared alphabet (without the extra rare-outcome operands)"""
+        return [n for n in self.data[kind] if n not in self.extra.get(kind, {})]
 
     def q(self, kind, name):
         key = (kind, name)
@@ -245,17 +259,20 @@ def compare(ls, rs, out=None):
                 shp, tuple(rs["shape"]))))
     if rs["ps"] is not None:
         lp, rp = ls["ps"], rs["ps"]
+        inband = (rp > P_ZERO) & (rp < P_BAND)
+        # outcomes within 10x of eps_zero may or may not be truncated to 0 (and the rest renormalised): no verdict on them
+        tolp = TOL + 2.0 * float(rp[inband].sum())
         if out is not None:
-            band = int(np.sum((rp > P_ZERO) & (rp < P_BAND)))
-            if band:
-                out.count("ref_prob_in_truncation_band", band)
+            if inband.any():
+                out.count("ref_prob_in_truncation_band", int(inband.sum()))
             out.count("zero_prob_outcomes", int(np.sum(rp <= P_ZERO)))
+            out.count("probabilities_compared", int(rp.size))
         if lp.min() < 0:
             probs.append(("negative-probability", "min p = %.3e" % lp.min()))
         if abs(lp.sum() - 1.0) > TOL:
             probs.append(("not-normalised", "sum p = 1 %+.3e" % (lp.sum() - 1.0)))
-        if not _close(lp, rp):
-            if _close(np.sort(lp), np.sort(rp)):
+        if not _close(lp, rp, tolp):
+            if _close(np.sort(lp), np.sort(rp), tolp):
                 probs.append(("outcome-layout", "probabilities are a permutation of the reference (serial labels differ): lib %s ref %s" % (
                     np.round(lp, 6).tolist(), np.round(rp, 6).tolist())))
             else:
@@ -294,6 +311,20 @@ def count_class(shape):
     if len(shape) == 1:
         return "single"
     return "counts-equal" if len(set(shape)) == 1 else "counts-unequal"
+
+
+P_RARE = 1e-3
+
+
+def config_class(cx, r):
+    """configuration class of a node for its sig: system, outcome-count pattern, and whether the reference has a rare
+    (but far above eps_zero) outcome, 1e-7 < p < 1e-3, where normalising the post state amplifies rounding"""
+    cls = "%s:%s" % (cx.tag, count_class(r.shape))
+    if r.kind == "ens":
+        ps = np.array([np.vdot(cx.vecI, b).real for b in r.v])
+        if np.any((ps > P_BAND) & (ps < P_RARE)):
+            cls += ":rare-outcome"
+    return cls
 
 
 # ---- reference-side physicality of a library result (the basis is data) -----------------------------------
@@ -343,6 +374,16 @@ def unphysical(cx, obj):
 # building a library object from a reference object (public constructors only) - used to repair a failed node
 # =====================================================================================================
 
+def _clean_state_coeffs(cx, v):
+    """coefficients of the physical density matrix nearest to the reference vec (rounding in the reference, amplified
+    by 1/p, must not make the substitute object fail the library's 1e-13 physicality test)"""
+    d = cx.d
+    rho = np.asarray(v, dtype=np.complex128).reshape(d, d)
+    rho = R.proj_psd(rho)
+    rho = rho / np.trace(rho).real
+    return A.real_checked(cx.Th @ rho.reshape(-1), "ref state")
+
+
 def build_q(cx, r):
     from quara.objects.state import State
     from quara.objects.gate import Gate
@@ -353,7 +394,7 @@ def build_q(cx, r):
     rs = ref_stats(cx, r)
     n2 = cx.d * cx.d
     if r.kind == "state":
-        return State(cx.c, A.real_checked(rs["items"][0], "ref state"))
+        return State(cx.c, _clean_state_coeffs(cx, r.v[0]))
     if r.kind == "gate":
         return Gate(cx.c, A.real_checked(rs["items"][0], "ref hs").reshape(n2, n2))
     if r.kind == "mproc":
@@ -365,7 +406,7 @@ def build_q(cx, r):
         states = []
         for b, p in zip(r.v, ps):
             if p > 0:
-                states.append(State(cx.c, A.real_checked((cx.Th @ b) / p, "ref branch")))
+                states.append(State(cx.c, _clean_state_coeffs(cx, b / p)))
             else:
                 states.append(State(cx.c, np.zeros(n2, dtype=np.float64), is_physicality_required=False))
         return StateEnsemble(states, MultinomialDistribution(np.array(ps, dtype=np.float64), shape=tuple(r.shape)))
@@ -445,7 +486,7 @@ def eval_chain(cx, chain, out, rep, fold=True):
 
     def judge(site, res_ok, res, r, where, root):
         """-> (clean, object to hand on)"""
-        cls = "%s:%s" % (cx.tag, count_class(r.shape))
+        cls = config_class(cx, r)
         out.traces += 1
         if not res_ok:
             rep.fail("compose:%s:raises:%s:%s" % (site, type(res).__name__, cls),
@@ -498,13 +539,11 @@ def eval_chain(cx, chain, out, rep, fold=True):
         return roots, full
     # ---- the library's own n-ary fold: compose_qoperations(latest, ..., earliest) and the single-list form
     args = list(reversed(base_q))
-    fold_rep = None
-    node = Node(chain[0][0] + "0", None, True)
-    fold_rep = node.rep
+    fold_rep = chain[0][0] + "0"
     for i in range(1, n):
         fold_rep = "(%s %s%d)" % (fold_rep, chain[i][0], i)
     fold_tree = next(t for t in roots if t.rep == fold_rep)
-    cls = "%s:%s" % (cx.tag, count_class(full.shape))
+    cls = config_class(cx, full)
     for form, call_args in (("flat", args), ("list", [list(args)])):
         ok, val = A.call(compose_qoperations, *call_args)
         out.ops += 1
@@ -594,7 +633,10 @@ def families(tier, seed):
     for tag in ("Q1", "Q3", "Q2"):
         for pool in ("A", "B"):
             plan.append((tag, pool, 2, 4 if tier == "quick" else 5))
-    plan.append(("Q1", "A", 5, 5) if tier == "quick" else ("Q1", "A", 6, 6))
+    if tier == "quick":
+        plan += [("Q1", "A", 5, 5), ("Q3", "A", 5, 5), ("Q2", "A", 5, 5)]
+    else:
+        plan.append(("Q1", "A", 6, 6))
     for n in range(2, 7):
         for tag, pool, lo, hi in plan:
             if lo <= n <= hi:
@@ -611,11 +653,12 @@ def families(tier, seed):
         for nm in cx.names("povm"):
             genmp.append({"sys": tag, "povm": nm})
         topovm.append({"sys": tag})
-    return [("pairs", pairs), ("to_povm", topovm), ("genmp", genmp), ("chains", chains)]
+    rare = [{"sys": tag, "exp": e} for tag in ("Q1", "Q3", "Q2") for e in RARE_EXPONENTS]
+    return [("pairs", pairs), ("to_povm", topovm), ("genmp", genmp), ("rare", rare), ("chains", chains)]
 
 
 def execute(family, params, seed):
-    return {"chains": ex_chains, "pairs": ex_pairs, "genmp": ex_genmp, "to_povm": ex_to_povm}[family](params, seed)
+    return {"chains": ex_chains, "pairs": ex_pairs, "genmp": ex_genmp, "to_povm": ex_to_povm, "rare": ex_rare}[family](params, seed)
 
 
 def _finish(out, digest_parts):
@@ -648,6 +691,36 @@ def ex_chains(p, seed):
     out.nontrivial = ("M" in pat) or ("P" in pat) or n >= 2
     inner(out, ntrees - 1)
     out.count("chains", cnt)
+    return _finish(out, dig)
+
+
+def ex_rare(p, seed):
+    """chains through a measurement with one rare outcome (p = 10^-e, far above the truncation threshold eps_zero)"""
+    out = Out()
+    rep = Reporter(out)
+    cx = ctx(p["sys"], seed)
+    pa = pool_names(p["sys"], "A")
+    S, M = ("S", "rare_1e-%d" % p["exp"]), ("M", "rotated_comp")
+    chains = [[S, M]]
+    for g in pa["G"]:
+        chains += [[S, M, ("G", g)], [S, ("G", g), M]]
+    for pv in pa["P"]:
+        chains += [[S, M, ("P", pv)]]
+    if p["exp"] <= 4:    # keep joint probabilities away from the truncation threshold
+        for m2 in pa["M"]:
+            chains += [[S, M, ("M", m2)], [S, ("M", m2), M]]
+        if p["exp"] <= 3:
+            for pv in pa["P"]:
+                chains += [[S, M, ("M", pa["M"][0]), ("P", pv)]]
+    dig = []
+    for chain in chains:
+        roots, full = eval_chain(cx, chain, out, rep)
+        q = next((t.q for t in roots if t.q is not None and t.clean), None)
+        if q is not None:
+            ls = lib_stats(q)
+            dig.append(np.concatenate([np.ravel(x) for x in (ls["items"] or [ls["ps"]])]))
+        out.count("rare_chains")
+    inner(out, len(chains) - 1)
     return _finish(out, dig)
 
 
@@ -747,60 +820,61 @@ def ex_genmp(p, seed):
             continue
         Ss = [cx.T @ np.asarray(h) @ cx.Th for h in mp.hss]
         dig.append(np.concatenate([np.asarray(h).reshape(-1) for h in mp.hss]))
-        good = True
         # physical
         u = unphysical(cx, mp)
         if u:
-            good = False
             rep.fail("%s:unphysical:%s" % (sig0, pclass), "%s: %s" % (text, u))
+            continue
         # induces the POVM it came from, with the same labels
         induced = [S.conj().T @ cx.vecI for S in Ss]
         bad = [x for x in range(m) if not _close(induced[x], povm_r.v[x])]
         if bad:
-            good = False
             what = "induced-povm-labels" if _is_permutation(induced, povm_r.v) else "induced-povm"
             rep.fail("%s:%s:%s" % (sig0, what, pclass), "%s: induced element %d deviates by %.3e" % (
                 text, bad[0], np.abs(induced[bad[0]] - povm_r.v[bad[0]]).max()))
+            continue
+        good = True
         # to_povm gives the POVM back
         r_mp = RObj("mproc", (m,), Ss)
         okp, pv = A.call(mp.to_povm)
         out.ops += 1
         if not okp:
             good = False
-            rep.fail("%s:to_povm-raises:%s" % (sig0, pclass), "%s: %s" % (text, A.fmt_exc(pv)))
-        elif compare(lib_stats(pv), ref_stats(cx, povm_r)):
-            good = False
-            rep.fail("%s:to_povm-differs:%s" % (sig0, pclass), "%s: %s" % (text, compare(lib_stats(pv), ref_stats(cx, povm_r))[0][1]))
-        # on every alphabet state: probabilities = Born rule of the POVM, post states normalised and physical
+            rep.fail("to_povm:raises:%s:generated-%s" % (type(pv).__name__, label), "%s: %s" % (text, A.fmt_exc(pv)))
+        else:
+            pr = compare(lib_stats(pv), ref_stats(cx, povm_r))
+            if pr:
+                good = False
+                rep.fail("to_povm:%s:generated-%s" % (pr[0][0], label), "%s: to_povm() is not the POVM it was generated from: %s" % (text, pr[0][1]))
+        # on every alphabet state (the generated process is physical here, so this judges compose(MProcess, State)):
+        # probabilities = Born rule of the POVM; post states = action of the returned HS, normalised, physical
         for sn in snames:
             sr = cx.r("state", sn)
             born = np.array([np.vdot(M, sr.v[0]).real for M in povm_r.v])
+            r_ens = ref_then(sr, r_mp)
+            cls = config_class(cx, r_ens)
             oke, ens = A.call(compose_qoperations, mp, cx.q("state", sn))
             out.ops += 1
             out.traces += 1
+            where = "%s on state %s" % (text, sn)
             if not oke:
                 good = False
-                rep.fail("%s:on-state-raises:%s:%s" % (sig0, type(ens).__name__, pclass), "%s on state %s: %s" % (text, sn, A.fmt_exc(ens)))
+                rep.fail("compose:MProcess_State:raises:%s:%s" % (type(ens).__name__, cls), "%s: %s" % (where, A.fmt_exc(ens)))
+                continue
+            pr = compare(lib_stats(ens), ref_stats(cx, r_ens), out)
+            for what, detail in pr:
+                good = False
+                rep.fail("compose:MProcess_State:%s:%s" % (what, cls), "%s: %s" % (where, detail))
+            if pr:
                 continue
             lp = np.asarray(ens.prob_dist.ps, dtype=float)
-            if lp.shape != born.shape or lp.min() < 0 or abs(lp.sum() - 1) > TOL or not _close(lp, born):
+            if not _close(lp, born):
                 good = False
-                rep.fail("%s:on-state-probabilities:%s" % (sig0, pclass), "%s on state %s: ps %s, Born rule %s" % (text, sn, lp, born))
-                continue
-            out.count("zero_prob_outcomes", int(np.sum(born <= P_ZERO)))
-            band = int(np.sum((born > P_ZERO) & (born < P_BAND)))
-            if band:
-                out.count("ref_prob_in_truncation_band", band)
-            # post states agree with the action of the returned HS (channel action) and are physical
-            want = ref_stats(cx, ref_then(sr, r_mp))
-            pr = compare(lib_stats(ens), want)
-            if pr:
-                good = False
-                rep.fail("%s:on-state-%s:%s" % (sig0, pr[0][0], pclass), "%s on state %s: %s" % (text, sn, pr[0][1]))
+                rep.fail("%s:born-rule:%s" % (sig0, pclass), "%s: ps %s, Born rule of the POVM %s" % (where, lp, born))
             u = unphysical(cx, ens)
             if u:
                 good = False
-                rep.fail("%s:on-state-unphysical:%s" % (sig0, pclass), "%s on state %s: %s" % (text, sn, u))
+                rep.fail("compose:MProcess_State:unphysical-result:%s" % cls, "%s: %s" % (where, u))
         if good:
             out.count("genmp_ok_" + label.split("-")[0])
     inner(out, len(variants) - 1)
@@ -829,11 +903,12 @@ def guards(summary):
               "povm_class_projective", "povm_class_withzero"):
         if info.get(k, 0) < 1:
             g.append("never observed: %s" % k)
-    if info.get("ref_prob_in_truncation_band", 0) > 0:
-        g.append("%d reference probabilities inside the eps_zero truncation band (1e-12, 1e-6): pools must avoid them" %
-                 info["ref_prob_in_truncation_band"])
+    if info.get("ref_prob_in_truncation_band", 0) > 0.001 * info.get("probabilities_compared", 0):
+        g.append("%d of %d reference probabilities are inside the eps_zero truncation band (1e-12, 1e-7) where no verdict is given" %
+                 (info["ref_prob_in_truncation_band"], info.get("probabilities_compared", 0)))
+    if info.get("rare_chains", 0) < 1:
+        g.append("never observed: rare_chains")
     # every bracketing really ran: Catalan(3) = 5 trees per 4-chain
-    n4 = sum(v for k, v in summary["families"].items() if k == "chains")
     if info.get("trees_n4", 0) % 5 != 0:
         g.append("4-chains did not run 5 bracketings each")
     return g
